@@ -1,10 +1,13 @@
 /-
   C17 — Cropping and extending keep data on its coordinates and hit the requested size.
-  Property theorems only (helper lemmas live in Proofs/Lemmas/Axis.lean, Proofs/Lemmas/Extend.lean).
+  Property theorems only (helper lemmas live in Proofs/Lemmas/Axis.lean, Proofs/Lemmas/Extend.lean,
+  Proofs/Lemmas/AxisOps.lean).
 -/
 import SoundeventModel.Axis
+import SoundeventModel.AxisOps
 import Proofs.Lemmas.Axis
 import Proofs.Lemmas.Extend
+import Proofs.Lemmas.AxisOps
 namespace SE.Proofs.C17
 open SE SE.Axis
 
@@ -291,6 +294,212 @@ theorem C17_arange_by_count (e step : Rat) (k : Nat) (hs : step ≠ 0) :
     rw [arangeLen_of_whole' (n := k) (by grind) (by grind), lattice_neg_reverse]
     congr 1; grind
 
+/-! ## review additions: the numeric kernels (tied to the source for all inputs), full results -/
+
+/-- `crop_dim` is the label slice between the bounds `cropBounds` computes from `get_dim_range`
+    and the request; `cropBounds` is what the symbolic trace of the current source is proved
+    equal to on every run (sixteen variants: start / stop given or `None`, closedness flags). -/
+theorem C17_crop_bounds {α} (a : Samples α) (start stop : Option Rat) (lc rc : Bool) (eps : Rat) :
+    cropDim a start stop lc rc eps =
+      match dimRange (coordsOf a) with
+      | .error e => .error e
+      | .ok (cs, ce) =>
+        match cropBounds cs ce start stop lc rc eps with
+        | none => .error .invalid
+        | some (lo, hi) => .ok (selectRange a lo hi) := by
+  cases h1 : listMin (coordsOf a) with
+  | none => simp [cropDim, dimRange, h1]
+  | some cs =>
+    cases h2 : listMax (coordsOf a) with
+    | none => simp [cropDim, dimRange, h1, h2]
+    | some ce =>
+      simp only [cropDim, dimRange, cropBounds, h1, h2]
+      by_cases hA : start.getD cs > stop.getD ce
+      · simp [hA]
+      · by_cases hB : start.getD cs < cs ∨ stop.getD ce > ce
+        · simp [hA, hB]
+        · simp [hA, hB]
+          rfl
+
+/-- `extend_dim` with a known step is the re-indexing onto the coordinates the plan yields:
+    `extendPlan` (the `np.arange` calls and their guards) is what the symbolic trace of the current
+    source is proved equal to on every run. -/
+theorem C17_extend_plan {α} (a : Samples α) (attr start stop : Option Rat) (fill : α) (eps : Rat)
+    (lc rc : Bool) (cs ce last step : Rat)
+    (hr : dimRange (coordsOf a) = .ok (cs, ce)) (hl : (coordsOf a).getLast? = some last)
+    (hstep : dimStep attr (coordsOf a) = .ok (some step)) :
+    extendDim a attr start stop fill eps lc rc =
+      match extendPlan cs ce last step start stop eps lc rc with
+      | none => .error .invalid
+      | some p =>
+        match planCoords (coordsOf a) p with
+        | .error e => .error e
+        | .ok cs' => .ok (reindex a cs' fill) := by
+  have h1 : listMin (coordsOf a) = some cs ∧ listMax (coordsOf a) = some ce := by
+    unfold dimRange at hr
+    split at hr
+    · rename_i lo hi h1 h2; cases hr; exact ⟨h1, h2⟩
+    · simp at hr
+  simp only [extendDim, extendPlan, planCoords, h1.1, h1.2, hl, hstep]
+  by_cases hA : start.getD cs > stop.getD ce
+  · simp [hA]
+  · simp only [hA, if_false]
+    generalize (if lc then start.getD cs - eps else start.getD cs + eps) = s'
+    generalize (if rc then stop.getD ce + eps else stop.getD ce - eps) = e'
+    by_cases h0 : step = 0
+    · subst h0
+      by_cases hL : s' ≤ cs - 0 <;> by_cases hR : e' ≥ ce <;> simp [hL, hR]
+    · have h0' : ¬ (-step = 0) := by grind
+      by_cases hL : s' ≤ cs - step <;> by_cases hR : e' ≥ ce <;> simp [hL, hR, h0, h0']
+
+/-- the property's `extend_dim` clause in one statement: under the hypotheses of
+    `C17_extend_lattice` the **whole result** is `kl` new samples holding the fill value on the
+    lattice points below the axis, then the array itself (every sample, whatever it holds — NaN
+    included — at its coordinate, in order), then `kr` new filled samples on the lattice points above,
+    where a lattice point beyond an end is generated iff it lies inside the requested interval. -/
+theorem C17_extend_exact {α} (a : Samples α) (attr start stop : Option Rat) (fill : α) (eps : Rat)
+    (lc rc : Bool) (a0 step : Rat) (n : Nat) (hreg : coordsOf a = lattice a0 step (n + 1))
+    (hs : 0 < step) (heps : 0 < eps) (hstep : dimStep attr (coordsOf a) = .ok (some step))
+    (hcl : start.getD a0 ≤ a0) (hcr : a0 + (n : Rat) * step ≤ stop.getD (a0 + (n : Rat) * step))
+    (hl : ∀ j : Nat, 1 ≤ j →
+      ¬ (if lc then start.getD a0 - eps < a0 - (j : Rat) * step ∧ a0 - (j : Rat) * step < start.getD a0
+         else start.getD a0 < a0 - (j : Rat) * step ∧ a0 - (j : Rat) * step ≤ start.getD a0 + eps))
+    (hr : ∀ i : Nat, 1 ≤ i →
+      ¬ (if rc then stop.getD (a0 + (n : Rat) * step) < a0 + (n : Rat) * step + (i : Rat) * step ∧
+              a0 + (n : Rat) * step + (i : Rat) * step < stop.getD (a0 + (n : Rat) * step) + eps
+         else stop.getD (a0 + (n : Rat) * step) - eps ≤ a0 + (n : Rat) * step + (i : Rat) * step ∧
+              a0 + (n : Rat) * step + (i : Rat) * step < stop.getD (a0 + (n : Rat) * step))) :
+    ∃ (kl kr : Nat), extendDim a attr start stop fill eps lc rc = .ok (
+        (lattice (a0 - (kl : Rat) * step) step kl).map (fun c => (c, fill)) ++ a ++
+        (lattice (a0 + ((n + 1 : Nat) : Rat) * step) step kr).map (fun c => (c, fill))) ∧
+      (∀ j : Nat, 1 ≤ j → (j ≤ kl ↔
+        (if lc then start.getD a0 ≤ a0 - (j : Rat) * step else start.getD a0 < a0 - (j : Rat) * step))) ∧
+      (∀ i : Nat, 1 ≤ i → (i ≤ kr ↔
+        (if rc then a0 + (n : Rat) * step + (i : Rat) * step ≤ stop.getD (a0 + (n : Rat) * step)
+         else a0 + (n : Rat) * step + (i : Rat) * step < stop.getD (a0 + (n : Rat) * step)))) := by
+  have hn0 : (0 : Rat) ≤ (n : Rat) * step := Rat.mul_nonneg (natCast_nonneg n) (Rat.le_of_lt hs)
+  have hse : start.getD a0 ≤ stop.getD (a0 + (n : Rat) * step) := by grind
+  have hne : step ≠ 0 := by grind
+  refine ⟨leftCount a0 step (if lc then start.getD a0 - eps else start.getD a0 + eps),
+    rightCount (a0 + (n : Rat) * step) step
+      (if rc then stop.getD (a0 + (n : Rat) * step) + eps else stop.getD (a0 + (n : Rat) * step) - eps),
+    ?_, ?_, ?_⟩
+  · rw [extendDim_regular a attr start stop fill eps lc rc a0 step n hreg hs hstep hse,
+      reindex_extended a fill a0 step n _ _ hreg hne]
+  · intro j hj
+    rw [le_leftCount_iff a0 step _ hs j hj]
+    have := hl j hj
+    cases lc <;> simp at this ⊢ <;> grind
+  · intro i hi
+    rw [le_rightCount_iff _ step _ hs i hi]
+    have := hr i hi
+    cases rc <;> simp at this ⊢ <;> grind
+
+/-- widening on **any** axis with unique coordinates (regular or not, step from the attribute or
+    estimated): every original sample is in the result, a result sample at an original coordinate
+    is that original sample (NaN, ±inf, a value equal to the fill value: all kept), a result sample
+    at a new coordinate holds the fill value, the original coordinates stay one contiguous block,
+    and there are exactly `width` samples -/
+theorem C17_width_keeps {α} (a r : Samples α) (attr : Option Rat) (w : Int) (fill : α) (pos : Pos)
+    (hnd : (coordsOf a).Nodup) (hw : a.length ≤ w.toNat)
+    (h : adjustWidth a attr w fill (some pos) = .ok r) :
+    (∀ p ∈ a, p ∈ r) ∧ (∀ p ∈ r, p.1 ∈ coordsOf a → p ∈ a) ∧ (∀ p ∈ r, p.1 ∉ coordsOf a → p.2 = fill) ∧
+    (∃ l rr, coordsOf r = l ++ coordsOf a ++ rr) ∧ r.length = w.toNat := by
+  have key : ∀ l rr : List Rat, l.length + a.length + rr.length = w.toNat →
+      r = reindex a (l ++ coordsOf a ++ rr) fill →
+      (∀ p ∈ a, p ∈ r) ∧ (∀ p ∈ r, p.1 ∈ coordsOf a → p ∈ a) ∧ (∀ p ∈ r, p.1 ∉ coordsOf a → p.2 = fill) ∧
+      (∃ l rr, coordsOf r = l ++ coordsOf a ++ rr) ∧ r.length = w.toNat := by
+    intro l rr hlen hr
+    subst hr
+    refine ⟨?_, ?_, ?_, ⟨l, rr, coordsOf_reindex _ _ _⟩, ?_⟩
+    · intro p hp
+      apply mem_reindex_of_mem hnd hp
+      simp; right; left; exact List.mem_map.mpr ⟨p, hp, rfl⟩
+    · intro p hp hold; exact reindex_old_is_old hnd hp hold
+    · intro p hp hnew; exact reindex_new_is_fill hp hnew
+    · simp [reindex_length, coordsOf_length]; omega
+  simp only [adjustWidth] at h
+  split at h
+  · simp at h
+  · split at h
+    · rename_i heq
+      cases h
+      exact key [] [] (by simp; omega) (by simp [reindex_self a fill hnd])
+    · split at h
+      · omega
+      · rename_i hne hnl
+        simp only [extendWidth] at h
+        split at h
+        · split at h
+          · simp at h
+          · split at h
+            · simp at h
+            · split at h
+              · simp at h
+              · cases pos
+                · simp only [Except.ok.injEq] at h
+                  refine key [] ?rr1 ?len1 ?eq1
+                  case eq1 => exact h.symm
+                  case len1 => simp [lattice_length]; omega
+                · simp only [Except.ok.injEq] at h
+                  refine key ?l2 ?rr2 ?len2 ?eq2
+                  case eq2 => exact h.symm
+                  case len2 => simp [lattice_length]; omega
+                · simp only [Except.ok.injEq] at h
+                  refine key ?l3 [] ?len3 ?eq3
+                  case eq3 => rw [List.append_nil]; exact h.symm
+                  case len3 => simp [lattice_length]; omega
+        · simp at h
+
+/-- narrowing on **any** axis (no regularity, no step needed): the result is the window of `width`
+    consecutive original samples — coordinates with their data — starting at index `0`,
+    `n / 2 - width / 2`, `n - width` for `start`, `center`, `end` -/
+theorem C17_crop_window {α} (a : Samples α) (attr : Option Rat) (w : Int) (fill : α) (pos : Pos)
+    (hw : 1 ≤ w) (hlt : w.toNat < a.length) :
+    adjustWidth a attr w fill (some pos) = .ok ((a.drop (cropOffset a.length w.toNat pos)).take w.toNat) := by
+  have h1 : ¬ w < 1 := by omega
+  have heq : ¬ w.toNat = a.length := by omega
+  have hge : ¬ w.toNat ≥ a.length := by omega
+  have hw0 : w.toNat ≠ 0 := by omega
+  simp only [adjustWidth, h1, heq, hlt, if_false, if_true, cropWidth, hge]
+  cases pos <;> simp [cropOffset, hw0]
+  rw [List.take_of_length_le]
+  simp; omega
+
+/-- `get_dim_step` with its options: the defaults are `dimStep` (what the operations call); the
+    attribute wins over everything; without it and with `estimate_step=False` the call raises;
+    with `check_tolerance=False` the mean of the differences is returned unchecked; a regular axis
+    passes the check for every non-negative tolerance and yields its step -/
+theorem C17_step_options (attr : Option Rat) (coords : List Rat) (rtol atol : Rat) (chk est : Bool) :
+    dimStepFull attr coords defaultRtol defaultAtol true true = dimStep attr coords ∧
+    (∀ s, dimStepFull (some s) coords rtol atol chk est = .ok (some s)) ∧
+    dimStepFull none coords rtol atol chk false = .error .invalid ∧
+    (diffs coords ≠ [] → dimStepFull none coords rtol atol false true =
+      .ok (some (sumRat (diffs coords) / ((diffs coords).length : Rat)))) ∧
+    (∀ a0 step k, 0 ≤ rtol → 0 ≤ atol →
+      dimStepFull none (lattice a0 step (k + 2)) rtol atol chk true = .ok (some step)) := by
+  refine ⟨?_, ?_, ?_, ?_, ?_⟩
+  · cases attr <;> simp [dimStepFull, dimStep]
+  · intro s; simp [dimStepFull]
+  · simp [dimStepFull]
+  · intro hne; simp [dimStepFull, hne]
+  · intro a0 s k hrt hat
+    have hk : ((k + 1 : Nat) : Rat) ≠ 0 := by simp; grind [natCast_nonneg]
+    simp only [dimStepFull, diffs_lattice, sumRat, foldl_add_replicate, List.length_replicate]
+    have hmean : (0 + ((k + 1 : Nat) : Rat) * s) / ((k + 1 : Nat) : Rat) = s := by
+      rw [Rat.zero_add, Rat.mul_comm, Rat.mul_div_cancel hk]
+    rw [hmean]
+    have h0 : (s - s).abs = 0 := by simp [Rat.sub_self]
+    have hall : (List.replicate (k + 1) s).all
+        (fun d => decide ((d - s).abs ≤ atol + rtol * s.abs)) = true := by
+      rw [List.all_eq_true]
+      intro d hd
+      rw [List.eq_of_mem_replicate hd, h0]
+      have := Rat.mul_nonneg hrt (Rat.abs_nonneg (x := s))
+      simp; grind
+    simp [hall]
+
+
 -- non-vacuity
 example : cropDim [((0 : Rat), 1), (1/2, 2), (1, 3), (3/2, 4)] (some (1/2)) (some (3/2)) true false (1/1024)
     = .ok [(1/2, 2), (1, 3)] := by decide +kernel
@@ -306,5 +515,59 @@ example : adjustWidth [((0 : Rat), 1), (1/2, 2), (1, 3), (3/2, 4), (2, 5)] none 
     = .ok [(1/2, 2), (1, 3)] := by decide +kernel
 example : adjustWidth [((0 : Rat), 1)] none 0 0 (some .start) = .error .invalid := by decide +kernel
 example : dimStep none (lattice (1/4) (3/8) 5) = .ok (some (3/8)) := by decide +kernel
+
+-- cells: a NaN (or an infinity, or a number equal to the fill value) stays where it is
+example : adjustWidth [((0 : Rat), [Cell.num 1]), (1, [Cell.nan]), (2, [Cell.num 0])] (some 1) 5 [Cell.num 0] (some .center)
+    = .ok [(-1, [.num 0]), (0, [.num 1]), (1, [.nan]), (2, [.num 0]), (3, [.num 0])] := by decide +kernel
+example : extendDim [((0 : Rat), [Cell.nan, Cell.posInf]), (1/2, [Cell.num 2, Cell.negInf])] none (some (-1/2)) (some 1)
+      [Cell.nan, Cell.nan] (1/1024) true true
+    = .ok [(-1/2, [.nan, .nan]), (0, [.nan, .posInf]), (1/2, [.num 2, .negInf]), (1, [.nan, .nan])] := by decide +kernel
+example : cropDim [((0 : Rat), Cell.nan), (1, Cell.num 5), (2, Cell.nan)] (some 0) (some 2) false true (1/1024)
+    = .ok [(1, .num 5), (2, .nan)] := by decide +kernel
+-- kernels
+example : cropBounds 0 10 (some 2) (some 7) true false (1/1024) = some (2, 7 - 1/1024) := by decide +kernel
+example : cropBounds 0 10 (some 2) (some 11) true false (1/1024) = none := by decide +kernel
+example : extendPlan 0 1 1 (1/2) (some (-1)) (some 2) (1/1024) true false
+    = some (some (-1/2, -1 - 1/1024, -1/2), some (1, 2 - 1/1024, 1/2)) := by decide +kernel
+example : planCoords [0, 1/2, 1] (some (-1/2, -1 - 1/1024, -1/2), some (1, 2 - 1/1024, 1/2))
+    = .ok [-1, -1/2, 0, 1/2, 1, 3/2] := by decide +kernel
+example : dimStepFull none [0, 1, 3] (1/4) 0 true true = .error .invalid := by decide +kernel
+example : dimStepFull none [0, 1, 3] (1/4) 0 false true = .ok (some (3/2)) := by decide +kernel
+example : dimStepFull none [0, 1, 3] (1/2) 0 true true = .ok (some (3/2)) := by decide +kernel
+example : dimStepFull none [0, 1, 3] (1/2) 0 true false = .error .invalid := by decide +kernel
+
+-- the hypotheses of `C17_extend_exact` / `C17_extend_lattice` are satisfiable (axis 0, 1/2; request [-1, 3/2))
+example : ∃ kl kr : Nat,
+    extendDim [((0 : Rat), (1 : Int)), (1/2, 2)] none (some (-1)) (some (3/2)) 0 (1/1024) true false = .ok (
+        (lattice (0 - (kl : Rat) * (1/2)) (1/2) kl).map (fun c => (c, (0 : Int))) ++ [((0 : Rat), (1 : Int)), (1/2, 2)] ++
+        (lattice (0 + ((1 + 1 : Nat) : Rat) * (1/2)) (1/2) kr).map (fun c => (c, (0 : Int)))) := by
+  have hlt : ∀ j : Nat, (j : Rat) < 3 → j < 3 := by
+    intro j h
+    have : (j : Rat) < ((3 : Nat) : Rat) := by simpa using h
+    exact Rat.natCast_lt_natCast.mp this
+  have hle : ∀ j : Nat, (j : Rat) ≤ 1 → j ≤ 1 := by
+    intro j h
+    have : (j : Rat) ≤ ((1 : Nat) : Rat) := by simpa using h
+    exact Rat.natCast_le_natCast.mp this
+  obtain ⟨kl, kr, h, _, _⟩ := C17_extend_exact (α := Int) [((0 : Rat), (1 : Int)), (1/2, 2)] none (some (-1)) (some (3/2)) 0 (1/1024)
+    true false 0 (1/2) 1 (by decide +kernel) (by decide +kernel) (by decide +kernel) (by decide +kernel)
+    (by decide +kernel) (by decide +kernel)
+    (by
+      intro j hj h
+      simp at h
+      have h3 : ¬ (j : Rat) < 3 := by
+        intro hj3
+        have := hlt j hj3
+        have : j = 1 ∨ j = 2 := by omega
+        rcases this with rfl | rfl <;> simp at h <;> grind
+      grind)
+    (by
+      intro i hi h
+      simp at h
+      have h2 : (i : Rat) < 3 := by grind
+      have := hlt i h2
+      have : i = 1 ∨ i = 2 := by omega
+      rcases this with rfl | rfl <;> simp at h <;> grind)
+  exact ⟨kl, kr, h⟩
 
 end SE.Proofs.C17
